@@ -27,7 +27,16 @@ def evaluate(jobs, rc_key="rc", only=None, prior=None):
         j = by[n]
         bl = [ev(b) for b in j["blocked_by"]]
         visiting.discard(n)
-        if any(c == "missing" for c, _ in bl):
+        if only is not None and any(c == "missing" for (c, _), b in zip(bl, j["blocked_by"]) if b not in only) and not any(
+            c in ("missing", "missing_or_canceled") for (c, _), b in zip(bl, j["blocked_by"]) if b in only
+        ):
+            # resubmission: a blocker that is NOT rerun never got an outcome (the user excluded missing jobs).  JADE
+            # hands the dependent over with only the rerun blockers; the property does not decide this case.
+            if j["flag"] and any(c in ("failed", "canceled") for (c, _), b in zip(bl, j["blocked_by"]) if b in only):
+                out[n] = ("canceled", 1)
+            else:
+                out[n] = ("either_or_missing", j[rc_key])
+        elif any(c in ("missing", "either_or_missing") for c, _ in bl):
             # waits for a job that never gets an outcome -> never started.  Canceled only if flagged and
             # another blocker failed (JADE may or may not notice before giving up): both accepted by
             # callers through "missing_or_canceled".
